@@ -261,6 +261,13 @@ func Main(t *testing.T, property string, workloads []Workload) {
 			}
 			h.Write([]byte(out.Digest))
 			res.RunDigests = append(res.RunDigests, fmt.Sprintf("%s[%d]=%x", j.w.Name, j.index, h.Sum(nil)[:6]))
+			if os.Getenv("VERIF_DIGEST_DEBUG") != "" {
+				th := sha256.New()
+				for _, d := range out.Trace {
+					th.Write([]byte(d))
+				}
+				fmt.Printf("DIGEST %s[%d] tracelen=%d tracehash=%x digest=%s\n", j.w.Name, j.index, len(out.Trace), th.Sum(nil)[:4], out.Digest)
+			}
 		}
 		if out.Sample != nil && len(res.Samples) < 3 {
 			res.Samples = append(res.Samples, out.Sample)
